@@ -90,6 +90,7 @@ type dhcpRun struct {
 	real   time.Time
 	viol   bool
 	sawAck bool
+	restart  bool   // C18: at the end construct a new handler from the saved file and probe it
 	keepFile string // if set, the lease file is copied here after the history (C18)
 	afterAck func(step int, file string, m *mon.DHCPMon)
 }
@@ -406,6 +407,9 @@ func (d *dhcpRun) history() {
 		if d.viol {
 			break
 		}
+	}
+	if d.restart && !d.viol {
+		d.restartProbe(s, rec, file, m, h, cls, cs)
 	}
 	c.Obs("dhcp_acks", int64(m.Acks))
 	c.Obs("dhcp_offers", int64(m.Offers))
